@@ -301,7 +301,17 @@ class K:
                             self.ints.add(nm)
                             self.emit(1, f"let mut {nm} : Int := 0")
 
+    def check_signature(self):
+        """the `def` line must be the one the translator is configured for (a reordered / renamed parameter or a default value
+        would otherwise leave the generated program unchanged)"""
+        a = self.fn.args
+        names = [x.arg for x in a.args]
+        want = list(self.cfg["params"])
+        if names != want or a.defaults or a.vararg or a.kwarg or a.kwonlyargs or a.posonlyargs:
+            raise Unsupported(f"signature changed: def {self.fn.name}({ast.unparse(a)}) but the translator is configured for ({', '.join(want)})")
+
     def run(self):
+        self.check_signature()
         if self.safe:
             self.emit(1, "let mut bad : Bool := false")
         for nm, kind in self.cfg["params"].items():
@@ -417,7 +427,7 @@ def translate(cfg, safe=False):
     """the text of Hdc/Gen/K<Name>.lean (safe=False) or of the instrumented Hdc/Gen/Safe<Name>.lean (safe=True)"""
     src = (REPO / cfg["file"]).read_text()
     mod = ast.parse(src)
-    fn = next(n for n in ast.walk(mod) if isinstance(n, ast.FunctionDef) and n.name == cfg["func"])
+    fn = [n for n in ast.walk(mod) if isinstance(n, ast.FunctionDef) and n.name == cfg["func"]][-1]      # a later def shadows an earlier one
     k = K(cfg, fn, safe=safe)
     body = k.run()
     if k.checks:
